@@ -94,7 +94,7 @@ var plans = map[string][]part{
 	"C16": {{"seq", 100, false}},
 	"C17": {{"guard", 100, false}},
 	"C18": {{"seq", 60, false}, {"golden", 40, false}},
-	"C19": {{"mangle", 100, false}},
+	"C19": {{"mangle", 60, false}, {"seq", 40, false}},
 	"C20": {{"seq", 100, false}},
 }
 
@@ -156,7 +156,8 @@ func prepare(needRace bool) *build {
 	}
 	b.info = res
 	b.fp = res.Fingerprint
-	mod := fmt.Sprintf("module verifsim\n\ngo 1.18\n\nrequire (\n\tgithub.com/0xrawsec/sod v0.0.0\n\tgithub.com/anishathalye/porcupine v1.3.0\n\tgithub.com/google/uuid v1.3.0\n)\n\nreplace github.com/0xrawsec/sod => %s/sod\n", scr)
+	old := pinnedCopy()
+	mod := fmt.Sprintf("module verifsim\n\ngo 1.18\n\nrequire (\n\tgithub.com/0xrawsec/sod v0.0.0\n\tgithub.com/0xrawsec/sodold v0.0.0\n\tgithub.com/anishathalye/porcupine v1.3.0\n\tgithub.com/google/uuid v1.3.0\n)\n\nreplace github.com/0xrawsec/sod => %s/sod\n\nreplace github.com/0xrawsec/sodold => %s\n", scr, old)
 	os.WriteFile(filepath.Join(scr, "build.mod"), []byte(mod), 0644)
 	os.WriteFile(filepath.Join(scr, "build.sum"), []byte(buildSum), 0644)
 	var pats []string
@@ -188,7 +189,40 @@ func prepare(needRace bool) *build {
 	return b
 }
 
-func (b *build) cleanup() { os.RemoveAll(b.scratch) }
+func (b *build) cleanup() {
+	if os.Getenv("VERIF_KEEP") == "" {
+		os.RemoveAll(b.scratch)
+	}
+}
+
+// pinnedCopy returns the rewritten copy of the pinned release (C18), building
+// it once under sim/bin (it never changes: the sources are committed).
+func pinnedCopy() string {
+	dst := filepath.Join(verifDir, "sim", "bin", "sodold")
+	if _, err := os.Stat(filepath.Join(dst, "go.mod")); err == nil {
+		return dst
+	}
+	tmp, err := os.MkdirTemp(filepath.Join(verifDir, "sim", "bin"), "sodold-")
+	if err != nil {
+		os.MkdirAll(filepath.Join(verifDir, "sim", "bin"), 0755)
+		if tmp, err = os.MkdirTemp(filepath.Join(verifDir, "sim", "bin"), "sodold-"); err != nil {
+			die2("pinned copy: %v", err)
+		}
+	}
+	cwd, _ := os.Getwd()
+	_, err = simbuild.Build(filepath.Join(verifDir, "golden", "pinned-src"), tmp)
+	os.Chdir(cwd)
+	if err != nil {
+		os.RemoveAll(tmp)
+		die2("simbuild of the pinned release: %v", err)
+	}
+	gm, _ := os.ReadFile(filepath.Join(tmp, "go.mod"))
+	os.WriteFile(filepath.Join(tmp, "go.mod"), []byte(strings.Replace(string(gm), "module github.com/0xrawsec/sod", "module github.com/0xrawsec/sodold", 1)), 0644)
+	if err := os.Rename(tmp, dst); err != nil {
+		os.RemoveAll(tmp) // somebody else built it meanwhile
+	}
+	return dst
+}
 
 // agg aggregates what the workers report.
 type agg struct {
@@ -522,6 +556,11 @@ func main() {
 	case "warm":
 		b := prepare(len(os.Args) > 2 && os.Args[2] == "race")
 		b.cleanup()
+	case "build":
+		// development helper: keep the scratch build and print where it is
+		os.Setenv("VERIF_KEEP", "1")
+		b := prepare(len(os.Args) > 2 && os.Args[2] == "race")
+		fmt.Println(b.scratch)
 	default:
 		die2("unknown command %s", os.Args[1])
 	}
